@@ -85,6 +85,24 @@ example : (runEvents (Writer.new 1000 1 6)
       ((List.range 9).map (fun i => Ev.write (2000 + i * 1000) [⟨0, [97], 1, 0, 0, 0, 5, 0, 0, 0⟩]) ++ [Ev.reopen 60000 1 2])).files.length = 2 := by
   decide
 
+/-- **file_names_sorted**: along every accepted history of writes and restarts the names of the retained
+    files `(date, roll number)` are *strictly increasing* in the comparator order (date first, then the
+    number) in creation order — `nextFileNameOfTime` always picks a name greater than every existing one
+    (`nextName_gt`), removal only drops a prefix.  In particular no two files share a name (no file is
+    ever re-created / truncated by a roll), which is what the seeded change C17-3 and C17-r3-3 broke. -/
+theorem file_names_sorted (now maxSize maxFiles : Nat) (evs : List Ev) (hok : EvsOK (Writer.new now maxSize maxFiles) evs) :
+    ((runEvents (Writer.new now maxSize maxFiles) evs).files.map (·.name)).Pairwise nameLt := by
+  rw [List.pairwise_map]
+  exact (nameInv_runEvents _ evs hok (nameInv_new now maxSize maxFiles)).1
+
+/-- … hence the searcher's listing order (the directory entries sorted with the comparator) **is** the
+    creation order, the order in which the model keeps the files and in which `retained_ordered` holds -/
+theorem listing_order_is_creation_order (now maxSize maxFiles : Nat) (evs : List Ev)
+    (hok : EvsOK (Writer.new now maxSize maxFiles) evs) :
+    ((runEvents (Writer.new now maxSize maxFiles) evs).files.map (·.name)).mergeSort nameLeB
+      = (runEvents (Writer.new now maxSize maxFiles) evs).files.map (·.name) :=
+  List.mergeSort_of_pairwise ((file_names_sorted now maxSize maxFiles evs hok).imp nameLeB_of_lt)
+
 /-! ## 4. L2: a data file cut at an arbitrary byte -/
 
 /-- **prefix lemma**: the lines read from a file cut at byte `k` are the complete lines before the
@@ -258,6 +276,15 @@ theorem specFrom_sound_complete (files : List (List Item)) (b m : Nat) (hs : fil
     (specFrom files b m = (files.flatten.filter fun it => decide (b / 1000 ≤ it.ts / 1000)) ∨
       m ≤ (specFrom files b m).length) :=
   specFrom_prefix_complete files b m hs
+
+/-- L0: … and it does not run on: every line beyond the first `maxLines` has the same second as the line
+    before it (`LimitRule`: line number `i ≥ maxLines` ⇒ second of line `i` = second of line `i - 1`), i.e.
+    after the limit only the second in which it was reached is completed -/
+theorem specFrom_limit_rule (files : List (List Item)) (b m : Nat) : LimitRule m 0 0 (specFrom files b m) :=
+  readFromItems_rule m _
+
+example : LimitRule 1 0 0 [⟨1000, [97], 1, 0, 0, 0, 5, 0, 0, 0⟩, ⟨1500, [98], 1, 0, 0, 0, 5, 0, 0, 0⟩] := by
+  simp [LimitRule]
 
 theorem flatten_map_lines (fs : Dir) : (fs.map (·.lines)).flatten = retained fs := by
   simp [retained, List.flatMap]
